@@ -94,6 +94,19 @@ CHECKS = {
              "of their lines). Real DiagramRule evaluations (both modes, both naming options, bystanders and sub modules) "
              "on emitted states and seeded random worlds are validated for verdict and complete aggregated message.",
         design_ref="6 (C07)"),
+    "C14": dict(
+        technique="TLA+ names are component sequences compared only by equality/IsPrefix; TLC checks that RuleSem "
+                  "commutes with injective renamings on the bounded model; on the real code every abstract case is "
+                  "evaluated under a collision-free and two adversarial renamings and related by 'rename' law events "
+                  "validated by Trace_Rules / Trace_Layers / Trace_Labels",
+        text="The specification has no dotted strings, so invariance under injective component renaming holds by "
+             "construction and is model-checked as RuleSem!RenamingInvariant for the chain renaming the harness uses. "
+             "Module rules (all import relations of the bounded world and seeded random worlds with batches), layer "
+             "rules with name-defined layers and visualize() alias maps are each run on the real code under the "
+             "renamings clean / adv (every name a string prefix of the next) / adv2 (substrings and suffixes); the trace "
+             "specification requires equal verdicts, message sets, layer tags and label sources after mapping names "
+             "back, and the specification's own outcome for each rendering.",
+        design_ref="6 (C14)"),
     "C17": dict(
         technique="TLA+ specification of plot labels (Labels.tla) model-checked with TLC over all alias maps of a "
                   "bounded module tree; every emitted alias map replayed into real visualize() calls observed at the "
